@@ -126,7 +126,7 @@ class Serial:
         return a
 
 
-def make_tree(rng, nslab=3, slab_inds=None, halos_per_slab=None, box=500.0, velz=1234.5, ppd=64, nprev=2, compression=None, gap_prob=0.5, zero_part_prob=0.15, cleaned_away_prob=0.15, merge_prob=0.4, trailing=True, sim='SimA', smallratio=False, root=None, max_np=12):
+def make_tree(rng, nslab=3, slab_inds=None, halos_per_slab=None, box=500.0, velz=1234.5, ppd=64, nprev=2, compression=None, gap_prob=0.5, zero_part_prob=0.15, cleaned_away_prob=0.15, merge_prob=0.4, trailing=True, sim='SimA', smallratio=False, root=None, max_np=12, int_header=False):
     root = root or tempfile.mkdtemp(prefix='verif_cat_')
     if slab_inds is None:
         slab_inds = list(range(nslab))
@@ -134,7 +134,8 @@ def make_tree(rng, nslab=3, slab_inds=None, halos_per_slab=None, box=500.0, velz
         halos_per_slab = [int(rng.integers(0, 30)) for _ in slab_inds]
     zdir = os.path.join(root, sim, 'halos', 'z0.500')
     cdir = os.path.join(root, 'cleaning', sim, 'z0.500')
-    header = dict(BoxSize=float(box), VelZSpace_to_kms=float(velz), ppd=float(ppd), SimName=sim, Redshift=0.5, OutputType='GroupOutput', ParticleSubsampleA=0.03, ParticleSubsampleB=0.07, CPD=15)
+    # headers written by other tools may hold integral values as ints
+    header = dict(BoxSize=(int(box) if int_header and float(box).is_integer() else float(box)), VelZSpace_to_kms=(int(velz) if int_header and float(velz).is_integer() else float(velz)), ppd=float(ppd), SimName=sim, Redshift=0.5, OutputType='GroupOutput', ParticleSubsampleA=0.03, ParticleSubsampleB=0.07, CPD=15)
     cheader = dict(header, TimeSliceRedshiftsPrev=[0.6 + 0.1 * i for i in range(nprev)])
     serial = Serial()
     truth = dict(root=root, path=zdir, cleandir=os.path.join(root, 'cleaning'), header=header, slab_inds=list(slab_inds), slabs={}, box=box, velz=velz, ppd=ppd, nprev=nprev, sim=sim)
